@@ -50,6 +50,9 @@ SdwaX == {AsmW("sdwa", 1, v) : v \in SdwaFV}
 
 Pick(S, T) == IF Wide THEN S ELSE T
 Ops(fm) == OpsOf(fm)
+\* quick tier: every third row of the three largest tables (all rows are decoded by the real
+\* decoder from spec-encoded bytes in every run anyway, see DecodeScen)
+Thin(S) == IF Wide THEN S ELSE {o \in S : o % 3 = 0}
 Few(fm, S) == S \cap OpsOf(fm)
 
 V3Base == [vdst |-> 3, abs |-> 0, opsel |-> 0, clamp |-> 0, src0 |-> 5, src1 |-> 300, src2 |-> 128, omod |-> 0, neg |-> 0, op |-> 0]
@@ -75,16 +78,16 @@ Groups == {
   G("vop2", [src0: {249}, vsrc1: {2, 101, 106, 200}, vdst: {3}, op: Few("vop2", {1, 23, 37, 52})], SdwaX),
   G("vop1", [src0: S9t \cup {249}, vdst: {3, 200}, op: Ops("vop1") \cup {77, 255}], X1t),
   G("vop1", [src0: S9 \cup S8r, vdst: V8 \cup {106, 123, 128}, op: Few("vop1", {1, 2, 4, 15})], X1t),
-  G("vopc", [src0: S9t \cup {249}, vsrc1: {0, 255}, op: Ops("vopc") \cup {0, 15}], X1t),
-  G("vop3a", UNION {Vary([V3Base EXCEPT !.op = o], V3Alts) : o \in Ops("vop3a") \cup {0, 499, 1023}}, Z),
-  G("vop3a", [vdst: {0, 255}, abs: {0}, opsel: {0, 9}, clamp: {0}, src0: S9 \cup S8r,
+  G("vopc", [src0: S9t \cup {249}, vsrc1: {0, 255}, op: Thin(Ops("vopc")) \cup {0, 15}], X1t),
+  G("vop3a", UNION {Vary([V3Base EXCEPT !.op = o], V3Alts) : o \in Thin(Ops("vop3a")) \cup {0, 499, 1023}}, Z),
+  G("vop3a", [vdst: Pick({0, 255}, {255}), abs: {0}, opsel: Pick({0, 9}, {9}), clamp: {0}, src0: S9 \cup S8r,
               src1: Pick(S9 \cup S8r, {1, 255, 256}), src2: {240, 123, 255, 257}, omod: {1}, neg: {1},
               op: Few("vop3a", {16, 200, 256, 449, 944, 945})], Z),
-  G("vop3b", [vdst: {0, 255}, sdst: {0, 106, 123, 127}, clamp: {0, 1}, src0: {5, 300, 255, 250}, src1: {128},
-              src2: {0, 106, 209}, omod: {2}, neg: {0, 7}, op: Ops("vop3b")], Z),
+  G("vop3b", [vdst: {0, 255}, sdst: Pick({0, 106, 123, 127}, {106, 123, 127}), clamp: {0, 1}, src0: {5, 300, 255, 250},
+              src1: {128}, src2: Pick({0, 106, 209}, {106, 209}), omod: {2}, neg: {0, 7}, op: Ops("vop3b")], Z),
   G("ds", [offset0: {0, 16, 255}, offset1: {0, 255}, gds: {0, 1}, addr: {255}, data0: {1}, data1: {2},
-           vdst: {0, 255}, op: Ops("ds") \cup {21}], Z),
-  G("flat", [offset: {0, 4, 4095, 4096, 8191}, glc: {0, 1}, slc: {0, 1}, tfe: {0, 1}, addr: {0, 255}, data: {1},
+           vdst: {0, 255}, op: Thin(Ops("ds")) \cup {21}], Z),
+  G("flat", [offset: {0, 4, 4095, 4096, 8191}, glc: Pick({0, 1}, {1}), slc: {0, 1}, tfe: {0, 1}, addr: Pick({0, 255}, {255}), data: {1},
              saddr: {0, 2, 127}, vdst: {0, 255},
              op: Pick(Ops("flat"), Few("flat", {16, 20, 21, 22, 23, 28, 31, 80})) \cup {0, 127}], Z),
   \* words of no format / of formats without a decoder: x is the first dword
@@ -116,6 +119,7 @@ Sized == Done => \A n \in 0..Len(w) : LET T == Decode(Pre(n), c) IN T.k = "inst"
 Suffix == Done /\ E.k = "inst" => \A j \in Junk : Decode(Pre(E.sz) \o j, c) = E
 Prefix == Done => \A n \in 0..Len(w) : LET T == Decode(Pre(n), c) IN T.k = "inst" => T = E
 Sizes == Done /\ E.k = "inst" => E.sz \in {4, 8}       \* the sizes the ISA knows
+Printable == Done /\ E.k = "inst" => Len(Disasm(E)) >= 0    \* the disassembly text is defined
 
 \* the same properties in one pass (shares the evaluations; used by the quick tier)
 Cuts == {0, 3, 4, 7, 8} \cap (0..Len(w))
@@ -130,4 +134,5 @@ AllProps ==
     /\ e.k = "inst" => /\ e.sz \in {4, 8}
                        /\ Len(Encode(e)) = e.sz /\ Decode(Encode(e), c) = e
                        /\ \A j \in Junk : Decode(Pre(e.sz) \o j, c) = e
+                       /\ Len(Disasm(e)) >= 0                        \* the text is defined
 =============================================================================
